@@ -63,6 +63,15 @@ func snapshot(vs *types.ValidatorSet) snap {
 	return s
 }
 
+// snapshot0: accums only (works for the empty set too)
+func snapshot0(vs *types.ValidatorSet) []int64 {
+	var a []int64
+	for _, v := range vs.Validators {
+		a = append(a, v.Accum)
+	}
+	return a
+}
+
 func sameAccums(a, b []int64) bool {
 	if len(a) != len(b) {
 		return false
@@ -371,6 +380,17 @@ func applyOp(vs *types.ValidatorSet, m model, o op) {
 		if len(vs.Validators) > 0 {
 			vs.IncrementAccum(1)
 		}
+	case "batch", "batch-as-singles":
+		// rounds skipped at once (enterNewRound: Copy(); IncrementAccum(k)) vs. entered one by one
+		if len(vs.Validators) > 0 {
+			if o.Kind == "batch" {
+				vs.IncrementAccum(o.Power)
+			} else {
+				for i := int64(0); i < o.Power; i++ {
+					vs.IncrementAccum(1)
+				}
+			}
+		}
 	}
 }
 
@@ -383,9 +403,34 @@ func checkOps(caseNo int64) {
 	}
 	nops := 3 + rng.Intn(14)
 	ops := make([]op, nops)
-	kinds := []string{"add", "update", "remove", "incr", "incr"}
+	kinds := []string{"add", "update", "remove", "incr", "incr", "batch"}
 	for i := range ops {
 		ops[i] = op{Kind: kinds[rng.Intn(len(kinds))], Key: rng.Intn(8), Power: int64(1 + rng.Intn(9))}
+		if ops[i].Kind == "batch" {
+			ops[i].Power = int64(1 + rng.Intn(60)) // up to several times the total power of these small sets
+		}
+	}
+	if caseNo%4 == 0 && n0 >= 2 {
+		// scripted start: one validator holds most of the power, loses it after a few rounds (its
+		// accum stays far from the new distribution), then many rounds are skipped at once
+		var others int64 = 1
+		for _, p := range powers[:n0-1] {
+			others += p
+		}
+		powers[n0-1] = 2*others*others + int64(rng.Intn(50)) // its leftover accum takes more than one period of the new set to drain
+		pre := []op{}
+		for i := 0; i < 1+rng.Intn(3); i++ {
+			pre = append(pre, op{Kind: "incr"})
+		}
+		pre = append(pre, op{Kind: "update", Key: n0 - 1, Power: 1}, op{Kind: "incr"})
+		var t int64 = 1
+		for _, p := range powers[:n0-1] {
+			t += p
+		}
+		pre = append(pre, op{Kind: "batch", Power: t + 1 + int64(rng.Intn(int(2*t)))}, op{Kind: "batch", Power: 1 + int64(rng.Intn(int(t)))})
+		ops = append(pre, ops...)
+		nops = len(ops)
+		run.Count("ops_cases_power_drop_then_skipped_rounds", 1)
 	}
 	copyAt := map[int]bool{}
 	for i := 0; i < 1+rng.Intn(4); i++ {
@@ -422,7 +467,11 @@ func checkOps(caseNo int64) {
 			run.Count("copies_taken", 1)
 		}
 		applyOp(A, mA, o)
-		applyOp(B, mB, o)
+		ob := o
+		if o.Kind == "batch" {
+			ob.Kind = "batch-as-singles" // replicas B and D enter every round, A and C skip
+		}
+		applyOp(B, mB, ob)
 		applyOp(C, mC, o)
 		if restartAt[i] && len(D.Validators) > 0 {
 			re, err := reloadState(D, false)
@@ -433,7 +482,7 @@ func checkOps(caseNo int64) {
 			D = re.Copy().Copy()
 			run.Count("ops_restarts", 1)
 		}
-		applyOp(D, mD, o)
+		applyOp(D, mD, ob)
 		run.Count("ops_"+o.Kind, 1)
 		if !checkStructure(A, mA, ctx) {
 			return
@@ -460,6 +509,14 @@ func checkOps(caseNo int64) {
 		}
 		if !bytes.Equal(A.Hash(), B.Hash()) || !bytes.Equal(A.Hash(), C.Hash()) {
 			run.Violation("replica-hash-differs", fmt.Sprintf("equal operation sequences give different Hash() after op %d", i), ctx())
+			return
+		}
+		if sa, sb := snapshot0(A), snapshot0(B); !sameAccums(sa, sb) || (len(A.Validators) > 0 && !bytes.Equal(A.Proposer().Address, B.Proposer().Address)) {
+			pa, pb := "", ""
+			if len(A.Validators) > 0 {
+				pa, pb = fmt.Sprintf("%X", A.Proposer().Address[:4]), fmt.Sprintf("%X", B.Proposer().Address[:4])
+			}
+			run.Violation("skipped-rounds-differ-from-entered-rounds", fmt.Sprintf("after op %d (%s %d) the replica that skipped rounds (IncrementAccum(k)) has proposer %s accums %v, the one that entered every round proposer %s accums %v", i, o.Kind, o.Power, pa, sa, pb, sb), ctx())
 			return
 		}
 		if !checkStructure(D, mD, ctx) {
